@@ -1,5 +1,6 @@
 """C18 — the parser accepts exactly whole grammar statements and keeps no state between."""
 import os
+import re
 
 from . import core, gen
 
@@ -90,6 +91,19 @@ def run(r: core.Run):
     if bad:
         return
     if not pr["ok"] or tie is not None:
+        # a grammar table that no longer meets the obligations (say, an empty alternative tried first): the
+        # statements derived for each alternative by the translator are derivable by construction, with every
+        # optional part present where its first token comes next; run them through the real parser
+        try:
+            for line in core.run_bwh(["c17"]):
+                m = re.match(r"W (\S+) (\d+) (\S+) \[(.*?)\] (.*)$", line)
+                if m and m.group(3) != "accept":
+                    r.violation({"protocol": "parse", "what": f"the real parser rejects a derivable statement (the one derived for "
+                                 f"alternative {m.group(2)} of rule {m.group(1)}): {m.group(3)}", "tokens": m.group(5),
+                                 "how_to_replay": "./check C18 (the witnesses are regenerated from the running grammar on every run)"})
+                    return
+        except core.TieBroken:
+            pass
         r.violation({"protocol": "parse", "what": "proof obligation or correspondence no longer checks; no failing token sequence found",
                      "failed_theorems": [f"{n}: {why}" for n, why in pr["failed"]], "lean_errors": pr["errors"][:10],
                      "tie": (tie.what + "\n" + tie.detail) if tie else None}, found_input=False)
